@@ -635,7 +635,16 @@ func (h *harnessDb) runTx(t *hTx) string {
 	if t.Sys {
 		ctx = ctx.GetSystemContext()
 	}
-	err := h.db.Update(ctx, func(ctx boltz.MutateContext) error {
+	// a pseudo veto with store "@batch" selects Db.Batch instead of Db.Update (same contract; the
+	// model ignores it because no store has that name)
+	run := h.db.Update
+	for _, v := range t.Vetoes {
+		if v.Store == "@batch" {
+			run = h.db.Batch
+		}
+	}
+	err := run(ctx, func(ctx boltz.MutateContext) error {
+		results = nil // bbolt's Batch re-runs a failing function on its own
 		if t.PreCommitErr {
 			ctx.AddPreCommitAction(func(boltz.MutateContext) error { return errors.New("pre-commit action failed") })
 		}
